@@ -81,7 +81,11 @@ class W:
       call   - the wrapped expression itself, h.Arg(x, k, expr);
       ident  - a variable declared before the directive, named like an identifier generated code uses,
                initialised with the wrapped expression and passed as a bare identifier;
-      method - (function positions only) a method value recv.Run whose receiver is the wrapped expression."""
+      method - (function positions only) a method value recv.Run whose receiver is the wrapped expression;
+      raw    - (function positions only) the function literal itself, or the bare name of a function declared at
+               package level (it finds its execution through its context argument), unwrapped and unnumbered;
+      shared - (function positions only) ONE method used by several predicates / tasks of the directive with
+               different receiver values (the receiver carries the unit's id)."""
 
     def __init__(self, forms=None, seed=0):
         self.args = []          # (expr, form)
@@ -95,6 +99,8 @@ class W:
             expr, form = "h.Then(func() { %s}, %s)" % (self.pending_mut, expr), "call"
             self.pending_mut = None
         form = form or self.rng.choice(self.forms)
+        if form == "raw" and "h.Then(" in expr:
+            form = "call"
         self.args.append((expr, form))
         return "\x00%d\x00" % (len(self.args) - 1)
 
@@ -112,6 +118,9 @@ class W:
                 nm = names.pop()
                 pre.append("\t%s := h.Arg(x, %d, %s)\n" % (nm, k, self.args[i][0]))
                 sub[i] = nm
+        for i in order:
+            if i not in sub and self.args[i][1] == "raw":
+                sub[i] = self.args[i][0]       # a function literal or the name of a declared function, as users write them
         for i in order:
             if i not in sub:
                 k += 1
@@ -238,6 +247,14 @@ def render_flow(p):
     def opt_instr():
         return "\t\tcff.InstrumentFlow(%s),\n" % w.arg('"%s"' % name)
 
+    shared_sigs, shared_done = {}, set()
+    for q in p["units"]:
+        if q["kind"] == "pred":
+            qa = st.get("altspell", {}).get(str(q["id"]), False)
+            shared_sigs[q["id"]] = (("ctx context.Context" + (", " if q["ins"] else "") if q["wantctx"] else "") +
+                                    ", ".join(["a%d %s" % (i, tys[ty].go(qa)) for i, ty in enumerate(q["ins"])]),
+                                    "ctx" if q["wantctx"] else "nil", "".join(", " + tys[ty].acc("a%d" % i) for i, ty in enumerate(q["ins"])))
+
     def opt_task(u):
         altp = st.get("altspell", {}).get(str(u["id"]), False)
         ins = ", ".join(["a%d %s" % (i, tys[ty].go(altp)) for i, ty in enumerate(u["ins"])])
@@ -255,7 +272,14 @@ def render_flow(p):
         fn = "func(%s)%s {\n\t\t\t\t%s\n\t\t\t}" % (params, retsig, fbody)
         if spell == "paren":
             fn = "(" + fn + ")"
-        if spell == "method":
+        if spell == "named" and u["wantctx"]:
+            # a function declared at package level, referred to by its bare name
+            fname = "%sN%d" % (name, u["id"])
+            xdecls.append("func %s(%s)%s {\n\tx := h.From(ctx)\n\t%s\n}\n\n" % (fname, params, retsig, fbody.replace("\n\t\t\t\t", "\n\t")))
+            s = "\t\tcff.Task(\n\t\t\t%s,\n" % w.arg(fname, form="raw")
+        elif spell in ("rawlit", "named"):
+            s = "\t\tcff.Task(\n\t\t\t%s,\n" % w.arg(fn, form="raw")
+        elif spell == "method":
             # a method value: the receiver expression is what has to be evaluated once, in order, on the caller
             rt = "%sR%d" % (name, u["id"])
             xdecls.append("type %s struct{ x *h.X }\n\nfunc (rcv %s) Run(%s)%s {\n\tx := rcv.x\n\t%s\n}\n\n" %
@@ -270,7 +294,20 @@ def render_flow(p):
             ptoks = "".join(", " + tys[ty].acc("a%d" % i) for i, ty in enumerate(q["ins"]))
             pfn = "func(%s) bool {\n\t\t\t\treturn x.Pred(%d, %s%s)\n\t\t\t}" % (
                 pparams, q["id"], "ctx" if q["wantctx"] else "nil", ptoks)
-            if st.get("spell", {}).get(str(q["id"])) == "method":
+            pspell = st.get("spell", {}).get(str(q["id"]))
+            sig = (pparams, "ctx" if q["wantctx"] else "nil", ptoks)
+            if st.get("sharedpred") and sum(1 for v in shared_sigs.values() if v == sig) >= 2:
+                # the same method for every predicate of this signature; the receiver value tells them apart
+                k = sorted(set(map(str, shared_sigs.values()))).index(str(sig))
+                rt = "%sSP%d" % (name, k)
+                if rt not in shared_done:
+                    shared_done.add(rt)
+                    xdecls.append("type %s struct {\n\tx  *h.X\n\tid int\n}\n\nfunc (rcv %s) Run(%s) bool {\n\treturn rcv.x.Pred(rcv.id, %s%s)\n}\n\n" %
+                                  (rt, rt, pparams, sig[1], ptoks))
+                s += "\t\t\tcff.Predicate(%s.Run),\n" % w.arg("%s{x: x, id: %d}" % (rt, q["id"]), form="call")
+            elif pspell in ("rawlit", "named"):
+                s += "\t\t\tcff.Predicate(%s),\n" % w.arg(pfn, form="raw")
+            elif pspell == "method":
                 rt = "%sR%d" % (name, q["id"])
                 xdecls.append("type %s struct{ x *h.X }\n\nfunc (rcv %s) Run(%s) bool {\n\tx := rcv.x\n\treturn x.Pred(%d, %s%s)\n}\n\n" %
                               (rt, rt, pparams, q["id"], "ctx" if q["wantctx"] else "nil", ptoks))
@@ -366,13 +403,42 @@ def render_parallel(p):
             return "func(%s) error {\n\t\t\t\treturn %s.Err\n\t\t\t}" % (params, call)
         return "func(%s) {\n\t\t\t\t%s\n\t\t\t}" % (params, call)
 
+    # parallel tasks of one signature given as ONE method with different receivers (style sharedfn)
+    psig = lambda u: (u["wantctx"], u["haserr"])
+    pgroups = sorted({psig(u) for u in p["units"] if u["kind"] == "ptask"
+                      and sum(1 for v in p["units"] if v["kind"] == "ptask" and psig(v) == psig(u)) >= 2})
+    shared_done = set()
+
+    def fnarg(u):
+        """The placeholder for the function of a task or End hook, in one of its spellings."""
+        nonlocal decls
+        sp = st.get("spell", {}).get(str(u["id"]), "lit")
+        if st.get("sharedfn") and u["kind"] == "ptask" and psig(u) in pgroups:
+            rt = "%sSM%d" % (name, pgroups.index(psig(u)))
+            if rt not in shared_done:
+                shared_done.add(rt)
+                call = "rcv.x.Call(rcv.id, %s)" % ("ctx" if u["wantctx"] else "nil")
+                decls += "type %s struct {\n\tx  *h.X\n\tid int\n}\n\nfunc (rcv %s) Run(%s)%s {\n\t%s\n}\n\n" % (
+                    rt, rt, "ctx context.Context" if u["wantctx"] else "", " error" if u["haserr"] else "",
+                    ("return %s.Err" % call) if u["haserr"] else call)
+            return w.arg("%s{x: x, id: %d}" % (rt, u["id"]), form="call") + ".Run"
+        if sp == "named" and u["wantctx"]:
+            fname = "%sN%d" % (name, u["id"])
+            call = "h.From(ctx).Call(%d, ctx)" % u["id"]
+            decls += "func %s(ctx context.Context)%s {\n\t%s\n}\n\n" % (fname, " error" if u["haserr"] else "",
+                                                                       ("return %s.Err" % call) if u["haserr"] else call)
+            return w.arg(fname, form="raw")
+        if sp in ("rawlit", "named"):
+            return w.arg(fn_noarg(u), form="raw")
+        return w.arg(fn_noarg(u))
+
     def opt_unit(u):
         nonlocal decls
         s = ""
         if u["kind"] == "ptask":
             if st.get("tasksgroup") and u["id"] in st["tasksgroup"]:
                 return None
-            s = "\t\tcff.Task(\n\t\t\t%s,\n" % w.arg(fn_noarg(u))
+            s = "\t\tcff.Task(\n\t\t\t%s,\n" % fnarg(u)
             if u["instr"]:
                 s += "\t\t\tcff.Instrument(%s),\n" % w.arg('"u%d"' % u["id"])
             s += "\t\t),\n"
@@ -402,7 +468,7 @@ def render_parallel(p):
                 fnexpr = w.arg(fn)
             s = "\t\tcff.Slice(\n\t\t\t%s,\n\t\t\t%s,\n" % (fnexpr, w.arg("s%d" % c))
             if u["end"]:
-                s += "\t\t\tcff.SliceEnd(%s),\n" % w.arg(fn_noarg(unit(p, u["end"])))
+                s += "\t\t\tcff.SliceEnd(%s),\n" % fnarg(unit(p, u["end"]))
             s += "\t\t),\n"
         elif u["kind"] == "melem":
             c = u["coll"]
@@ -415,7 +481,7 @@ def render_parallel(p):
                 fn = "func(%s) {\n\t\t\t\t_ = %s\n\t\t\t}" % (", ".join(ps), call)
             s = "\t\tcff.Map(\n\t\t\t%s,\n\t\t\t%s,\n" % (w.arg(fn), w.arg("m%d" % c))
             if u["end"]:
-                s += "\t\t\tcff.MapEnd(%s),\n" % w.arg(fn_noarg(unit(p, u["end"])))
+                s += "\t\t\tcff.MapEnd(%s),\n" % fnarg(unit(p, u["end"]))
             s += "\t\t),\n"
         return s
 
@@ -445,7 +511,7 @@ def render_parallel(p):
         elif o == "tasks":
             grp = st.get("tasksgroup") or []
             if grp:
-                text += "\t\tcff.Tasks(\n%s\t\t),\n" % "".join("\t\t\t%s,\n" % w.arg(fn_noarg(unit(p, g))) for g in grp)
+                text += "\t\tcff.Tasks(\n%s\t\t),\n" % "".join("\t\t\t%s,\n" % fnarg(unit(p, g)) for g in grp)
         else:
             u = unit(p, o)
             if u["kind"] in ("send", "mend"):
@@ -483,6 +549,10 @@ def header(pkg, fstyle):
     if ea.startswith("v2:"):
         extname = ea[3:]
         extpath, extalias = "vgen/%s/v2" % extname, ""
+    if ea == "libctx":
+        # a project-local package whose import path ENDS in the path of a package the file also imports
+        # (vgen/lib/context declares package context), imported under another name
+        extpath = "vgen/lib/context"
     return ("%s\n\npackage %s\n\nimport (\n\t%s\"context\"\n%s\n\t%s\"go.uber.org/cff\"\n\t%s\"%s\"\n\n\t\"verif/harness/pkg/h\"\n)\n\n"
             "var _ = %s.Background\nvar _ %s.E1\n%s\n" % (cons, pkg, (xa + " ") if xa else "", dupimp, (ca + " ") if ca else "",
                                                          extalias, extpath, xa or "context", extname, dupuse))
@@ -510,7 +580,7 @@ SURROUND = [
 
 def gen_fstyle(rng):
     return dict(cff=rng.choice(["", "", "c", "cff2"]), context=rng.choice(["", "", "stdctx"]),
-                ext=rng.choice(["", "", "time", "debug", "multierr", "v2:debug", "v2:time"]), dup=rng.choice(["", "", "context"]),
+                ext=rng.choice(["", "", "time", "debug", "multierr", "v2:debug", "v2:time", "libctx"]), dup=rng.choice(["", "", "context"]),
                 # (the module is on go 1.22: a go1.2x term pins the file - and the generated file, which inherits the
                 # constraint - to a language version with per-loop loop variables)
                 constraint=rng.choice(["//go:build cff", "//go:build cff", "//go:build cff\n// +build cff",
@@ -531,6 +601,10 @@ def write_module(root, packages, fancy=True):
     os.makedirs(os.path.join(root, "ext"), exist_ok=True)
     with open(os.path.join(root, "ext", "ext.go"), "w") as f:
         f.write("// Package ext holds value types declared outside the package that uses cff.\npackage ext\n\n" +
+                "".join("// E%d is a token carrier.\ntype E%d struct{ Tok int }\n\n" % (i, i) for i in range(1, 13)))
+    os.makedirs(os.path.join(root, "lib", "context"), exist_ok=True)
+    with open(os.path.join(root, "lib", "context", "ext.go"), "w") as f:
+        f.write("// Package context is a local package whose import path ends in the path of a standard package.\npackage context\n\n" +
                 "".join("// E%d is a token carrier.\ntype E%d struct{ Tok int }\n\n" % (i, i) for i in range(1, 13)))
     for nm in ("debug", "time"):
         os.makedirs(os.path.join(root, nm, "v2"), exist_ok=True)
@@ -634,6 +708,16 @@ def gen_flow(rng, name, max_tasks=4, features=None, plain=False):
         else:
             units.append(u)
         avail += outs
+    # several predicates given as ONE method with different receivers: they need the same signature
+    preds = [u for u in units if u["kind"] == "pred"]
+    sharedpred = len(preds) >= 2 and rng.random() < 0.5
+    if sharedpred:
+        wc = rng.random() < 0.3
+        for q in preds:
+            q["ins"], q["wantctx"] = [], wc
+        consumed = set()
+        for u in units:
+            consumed.update(u["ins"])
     # unconsumed provided types: params must be consumed by someone, outputs go to Results
     for ty in list(avail):
         if ty in consumed:
@@ -665,7 +749,8 @@ def gen_flow(rng, name, max_tasks=4, features=None, plain=False):
     p = dict(name=name, dir="flow", ntypes=ntypes, params=params, results=results, units=units, nargsexpr=0,
              leaves=leaves, instr=instr, hasconc=rng.random() < 0.7, coemode="none", autoins=False, mode="base",
              style=dict(tkind=pick_kinds(rng, ntypes, params), order=order,
-                        spell={str(u["id"]): rng.choice(["lit", "lit", "paren", "method"]) for u in units},
+                        spell={str(u["id"]): rng.choice(["lit", "lit", "paren", "method", "rawlit", "rawlit", "named"]) for u in units},
+                        sharedpred=sharedpred,
                         argforms=rng.choice([["call"], ["call", "call", "ident"], ["call", "ident"]]), argseed=rng.randint(0, 10**6),
                         altspell={str(u["id"]): rng.random() < 0.5 for u in units}, uservars=rng.random() < 0.3,
                         latemut=rng.random() < 0.35,
@@ -710,6 +795,10 @@ def gen_parallel(rng, name):
     for u in units:
         if u["kind"] == "ptask" and leaves > 0 and rng.random() < 0.6:
             u["instr"] = True
+    for u in units:
+        if u["kind"] in ("ptask", "send", "mend"):
+            style["spell"][str(u["id"])] = rng.choice(["lit", "lit", "rawlit", "rawlit", "named"])
+    style["sharedfn"] = rng.random() < 0.4
     ptasks = [u["id"] for u in units if u["kind"] == "ptask"]
     if len(ptasks) >= 2 and rng.random() < 0.4:
         # cff.Tasks(f, g) cannot carry Instrument options
